@@ -33,12 +33,14 @@ SELECTORS = ["selecteq", "selectne", "selectlt", "selectle", "selectgt", "select
              "selectrangeopenright", "selectrangeclosed", "selectin", "selectnotin", "selectnone", "selectnotnone", "selecttrue",
              "selectfalse", "selectis", "selectisnot", "selectisinstance", "selectop", "selectcontains", "select-field",
              "select-row", "select-expr"]
-TYPES = {"int": int, "str": str, "numbers": (int, float, Decimal), "none": type(None), "seq": (list, tuple)}
+import numbers as _numbers  # noqa: E402
+TYPES = {"int": int, "str": str, "numbers": (int, float, Decimal), "none": type(None), "seq": (list, tuple), "object": object,
+         "Number": _numbers.Number, "Integral": _numbers.Integral, "bool": bool, "int-float": (int, float)}
 
 
 @st.composite
 def sel_case(draw, tier):
-    p = draw(gen.pool(POOLV, 3, 6))
+    p = draw(gen.twinned_pool(POOLV, 3, 6))
     # sequences that differ only late: same prefix, then bytes vs text / None vs number / list vs tuple
     base = draw(st.lists(gen.scalar, max_size=2))
     for tail_ in draw(st.lists(st.sampled_from([b"a", "a", None, 1, 1.0, "b", b"b", (), []]), max_size=3)):
